@@ -45,10 +45,16 @@ def gen_sequence(ctx, maxlen):
     scale = float(10.0 ** r.choice([-1, 0, 0, 1]))
     w, m, v, _ = gen.gmm_params(r, C, D, scales=np.ones(D) * scale)
     is_map = bool(r.random() < 0.35)
-    ops = [("m", m), ("v", v)] if not is_map else []
+    # an ML machine usually starts with means and variances assigned; sometimes only the means are (fit then supplies unit variances)
+    ops = ([("m", m), ("v", v)] if r.random() < 0.7 else [("m", m)]) if not is_map else []
+    if len(ops) == 1 and r.random() < 0.6:
+        ops += [("t",) + floor_value(r, C, D, 10.0), ("fit0",)]  # floors around / above the unit variances fit is about to supply
     L = int(r.integers(3, maxlen + 1))
     for _ in range(L):
-        k = r.choice(["w", "m", "v", "t", "t", "step", "step", "clone", "clone"])
+        k = r.choice(["w", "m", "v", "t", "t", "step", "step", "clone", "clone", "fit0"])
+        if k == "fit0":
+            ops.append(("fit0",))
+            continue
         if k == "w":
             ops.append(("w", r.dirichlet(np.full(C, 2.0))))
         elif k == "m":
@@ -61,7 +67,7 @@ def gen_sequence(ctx, maxlen):
             sw = tuple(bool(b) for b in r.integers(0, 2, 3))
             ops.append(("step", sw, int(r.integers(3, 15)), float(10 ** r.uniform(-12, -1))))
         else:
-            ops.append(("clone", str(r.choice(["deepcopy", "pickle", "hdf5", "hdf5_load"]))))
+            ops.append(("clone", str(r.choice(["deepcopy", "pickle", "hdf5", "hdf5_load", "ubm_inplace"]))))
     probes = r.normal(0, 4, (3, D)) * scale
     return dict(C=C, D=D, w0=w, ubm=(w, m, v) if is_map else None, ops=ops, probes=probes, scale=scale,
                 init_thr=gen.EPS, seed=int(r.integers(0, 2**31)))
@@ -113,6 +119,29 @@ def run_impl(seq):
             val = op[2]
             g.variance_thresholds = copy.deepcopy(val)
             model_ops.append({"k": "t", "val": core.enc(np.broadcast_to(np.asarray(val, dtype=float), (C, D)))})
+        elif k == "fit0":
+            # fit with an iteration limit of 0: initialisation only - a machine with means and no variances gets unit variances
+            # (through the setter, hence clamped at the current floors); nothing else may change
+            try:
+                _ = g.means
+            except ValueError:
+                model_ops.append({"k": "clone"})  # would run the k-means initialisation: not this property's business
+                obs_list.append(observe(g))
+                continue
+            try:
+                _ = g.variances
+                had_v = True
+            except ValueError:
+                had_v = False
+            keep = g.max_fitting_steps
+            g.max_fitting_steps = 0
+            r = core.impl(lambda: g.fit(rng.normal(0, 3, (6, D)) * seq["scale"]))
+            g.max_fitting_steps = keep
+            if isinstance(r, core.ImplError):
+                obs_list.append({"error": "fit: " + repr(r)})
+                model_ops.append({"k": "clone"})
+                continue
+            model_ops.append({"k": "clone"} if had_v else {"k": "v", "val": core.enc(np.ones((C, D)))})
         elif k == "step":
             (um_, uv_, uw_), n, thr = op[1], op[2], op[3]
             try:
@@ -135,11 +164,19 @@ def run_impl(seq):
             if ubm is None:
                 model_ops.append({"k": "ml", **base})
             else:
-                model_ops.append({"k": "map", **base, "ubm": gen.params_line(ubm.weights, ubm.means, ubm.variances), "reynolds": g.map_relevance_factor is not None,
+                model_ops.append({"k": "map", **base, "ubm": gen.params_line(g.ubm.weights, g.ubm.means, g.ubm.variances), "reynolds": g.map_relevance_factor is not None,
                                   "r": core.bits(g.map_relevance_factor or 0.0), "alpha": core.bits(g.map_alpha)})
         else:
             how = op[1]
-            if how == "deepcopy":
+            if how == "ubm_inplace":
+                # the prior the machine was built from is re-weighted in place by its owner (public property, augmented
+                # assignment): another object's business - the machine's own state is what it was
+                if ubm is not None:
+                    g.ubm.weights *= rng.uniform(0.5, 2.0, C)
+                    g.ubm.weights /= g.ubm.weights.sum()
+                else:
+                    g = copy.deepcopy(g)
+            elif how == "deepcopy":
                 g = copy.deepcopy(g)
             elif how == "pickle":
                 g = pickle.loads(pickle.dumps(g))
@@ -163,7 +200,7 @@ def run_impl(seq):
                             continue
                         g = other
                     elif not isinstance(r, core.ImplError):
-                        g2 = core.impl(lambda: GMMMachine.from_hdf5(tmp, ubm=ubm))
+                        g2 = core.impl(lambda: GMMMachine.from_hdf5(tmp, ubm=g.ubm))
                         if isinstance(g2, core.ImplError):
                             obs_list.append({"error": "load: " + repr(g2)})
                             model_ops.append({"k": "clone"})
